@@ -30,6 +30,10 @@ CLAIMS = {
          "random multi-cuts and malformed/never-completed length fields on ws messages, ws continuation frames, HTTP chunks and chunks split over TCP writes; actual read sizes from the tr.read hook; "
          "TLC compares accepted packets, responses and host bytes with the uncut run (FramingTrace).", "DESIGN.md §4 C08",
          "TLC design check of framing; segmentations replayed on the real gateway; TLC trace validation"),
+ "C09": ("Gateway.tla (handler/loop/relay goroutines of two tunnels, registry and per-client writer as shared resources): mutual-exclusion and frame invariants hold with the locks and fail without (necessity). "
+         "On the race-detector build of the real binary: gated schedules hold one goroutine inside Tunnel.Write / the registry functions (hook gates) and provoke the conflicting one, TLC checks the recorded section events for overlap; "
+         "hook-free concurrent soaks of 8..64 tunnels with a start barrier feed race reports / fatal errors / frame integrity into the trace as sensor events.", "DESIGN.md §4 C09",
+         "TLC design check with lock-necessity; gated schedule replay + race-detector sensor on the real binary; TLC trace validation"),
  "C11": ("Teardown.tla (resources of a tunnel, ending causes, release steps) model-checked for both transports incl. the liveness property 'ending ~> released'; on the real binary every point of the exchange x every ending "
          "cause x data in flight x transport, observing within 3 s EOF at the host and on the client connections, loop/relay/unregister hooks, goroutine census and gauges; TLC judges each scenario. "
          "Open known finding: client closing only the legacy OUT connection.", "DESIGN.md §4 C11",
